@@ -372,6 +372,19 @@ func (r *Reader) Version() Version {
 	return r.v
 }
 
+// Size returns the current size of the log file
+func (r *Reader) Size() (int64, error) {
+	if r.ra != nil {
+		return int64(r.ra.Len()), nil
+	}
+
+	stat, err := r.r.Stat()
+	if err != nil {
+		return 0, fmt.Errorf("read log stat: %w", err)
+	}
+	return stat.Size(), nil
+}
+
 func (r *Reader) InitialPosition() int64 {
 	switch r.v {
 	case V1:
